@@ -86,6 +86,10 @@ func VHCommandArgs() {
 			for i := 0; i < l; i++ {
 				c := s[i]
 				vAssume(vAnd(vAnd(c != '>', c != '{'), vAnd(c != '\r', c != '\n')))
+				// the oracle takes no side on Unicode whitespace other than the grammar's (space, tab): vertical tab,
+				// form feed and the lead bytes of the multi-byte space characters (U+0085, U+00A0, U+1680, U+2000.., U+3000)
+				// are kept out of the alphabet, so that splitting on unicode.IsSpace and on [ \t] agree
+				vAssume(vAnd(vAnd(c != '\v', c != '\f'), vAnd(vAnd(c != 0xc2, c != 0xe1), vAnd(c != 0xe2, c != 0xe3))))
 			}
 			cs.Elements = append(cs.Elements, &CommandStatementElement{text: s})
 			acc = append(acc, s...)
